@@ -583,8 +583,23 @@ func noGeneratedIDs(v interface{}) bson.D {
 		switch x := v.(type) {
 		case bson.D:
 			out := make(bson.D, len(x))
+			// an upsert whose filter pins _id to a plain value inserts that
+			// id: nothing is generated, the upsert may stay
+			pinned := false
+			if f := asD(getD(x, "filter")); len(f) == 1 && f[0].Key == "_id" && f[0].Value != nil {
+				if _, isOps := f[0].Value.(bson.D); !isOps {
+					if _, isOID := f[0].Value.(primitive.ObjectID); !isOID {
+						pinned = true
+					}
+				}
+			}
+			if id := getD(x, "id"); id != nil && asS(getD(x, "op")) == "updateByID" {
+				if _, isOID := id.(primitive.ObjectID); !isOID {
+					pinned = true
+				}
+			}
 			for i, e := range x {
-				if e.Key == "upsert" {
+				if e.Key == "upsert" && !pinned {
 					out[i] = bson.E{Key: "upsert", Value: false}
 					continue
 				}
@@ -652,8 +667,19 @@ func c03Execute(r *c03Run, n int, step bson.D) error {
 	return nil
 }
 
-var propC03 = Register(&Prop{ID: "C03", Sub: "sessions",
-	Live: func(t *rapid.T, x *Ctx) (bson.D, error) {
+var propC03 = Register(&Prop{ID: "C03", Sub: "sessions", Live: c03Live, Run: c03Run_})
+
+// C02 inside session transactions: a call that fails inside a transaction
+// leaves the transaction's documents, indexes and pending events exactly as
+// they were (the session's view is compared with committed state + its
+// successful writes after every call, failing or not). Same machinery, biased
+// the same way; registered under C02 because that is the clause it decides.
+var propC02Sessions = Register(&Prop{ID: "C02", Sub: "sessions", Live: c03Live, Run: c03Run_})
+
+func TestProp_C02_sessions(t *testing.T) { propC02Sessions.Check(t) }
+
+var (
+	c03Live = func(t *rapid.T, x *Ctx) (bson.D, error) {
 		r, err := newC03Run(x)
 		if err != nil {
 			return nil, fmt.Errorf("harness: %v", err)
@@ -681,8 +707,8 @@ var propC03 = Register(&Prop{ID: "C03", Sub: "sessions",
 			x.NonTrivial()
 		}
 		return mk(), nil
-	},
-	Run: func(c bson.D, x *Ctx) error {
+	}
+	c03Run_ = func(c bson.D, x *Ctx) error {
 		r, err := newC03Run(x)
 		if err != nil {
 			return fmt.Errorf("harness: %v", err)
@@ -704,7 +730,7 @@ var propC03 = Register(&Prop{ID: "C03", Sub: "sessions",
 			x.NonTrivial()
 		}
 		return nil
-	},
-})
+	}
+)
 
 func TestProp_C03_sessions(t *testing.T) { propC03.Check(t) }
